@@ -365,6 +365,39 @@ func waitFor(d time.Duration, cond func() bool) bool {
 	return cond()
 }
 
+// pollerParked reports whether the dump shows a goroutine inside a registry's poll loop that is parked (waiting in a
+// select / channel operation / sleep), i.e. not running, not runnable, not inside a supplier.
+func pollerParked(dump string) bool {
+	for _, g := range strings.Split(dump, "\n\n") {
+		if !strings.Contains(g, "MetricRegistry).run") {
+			continue
+		}
+		head := g
+		if i := strings.Index(g, "\n"); i > 0 {
+			head = g[:i]
+		}
+		for _, st := range []string{"[select", "[chan receive", "[sleep", "[sync.Cond.Wait", "[semacquire"} {
+			if strings.Contains(head, st) {
+				return true
+			}
+		}
+	}
+	return false
+}
+
+// idlePollerProven: a started registry has made no poll during a 30 s guard (tens of thousands of poll periods). That
+// alone would be a statement about the clock. It becomes a proof when the poller goroutine is then seen parked - not
+// running, not runnable - at both ends of a further two seconds (a thousand periods or more) in which still no poll
+// arrives: nothing is going to wake it within any multiple of the period, whatever the load of the machine.
+func idlePollerProven(polls func() int) bool {
+	before := polls()
+	if !pollerParked(allStacks()) {
+		return false
+	}
+	time.Sleep(2 * time.Second)
+	return polls() == before && pollerParked(allStacks())
+}
+
 func allStacks() string {
 	buf := make([]byte, 1<<20)
 	return string(buf[:runtime.Stack(buf, true)])
@@ -467,6 +500,9 @@ func runC20L(_ *testing.T, c c20LifeCase) (out kit.Outcome) {
 				sawLateGauge = true
 				base := pollsOf(0)
 				if !waitFor(30*time.Second, func() bool { return pollsOf(idx) > 0 || pollsOf(0) >= base+20 }) {
+					if idlePollerProven(nPolls) {
+						return finish(kit.Viol(c.Backend+":started-not-polling", "op %d: the registry is started (its poller goroutine exists, parked) but no gauge has been polled for 32 s at a poll period of %v", i, period))
+					}
 					return finish(kit.Outcome{Harness: "poller made no progress within 30 s (inconclusive)"})
 				}
 				if pollsOf(idx) == 0 {
@@ -516,6 +552,9 @@ func runC20L(_ *testing.T, c c20LifeCase) (out kit.Outcome) {
 			if !waitFor(30*time.Second, func() bool { return nPolls() > before }) {
 				if !strings.Contains(allStacks(), "MetricRegistry).run") {
 					return finish(kit.Viol(c.Backend+":start-no-poller", "op %d: no gauge poll arrived after Start and no goroutine is inside the registry's poll loop", i))
+				}
+				if idlePollerProven(nPolls) {
+					return finish(kit.Viol(c.Backend+":started-not-polling", "op %d: after Start (ops so far %v) the poller goroutine exists but is parked and no gauge has been polled for 32 s at a poll period of %v", i, c.Ops[:i+1], period))
 				}
 				return finish(kit.Outcome{Harness: "no poll within 30 s after Start although a poller exists (inconclusive)"})
 			}
